@@ -764,13 +764,25 @@ fn hash_op(op: &str, a: &[&str]) -> R {
             }
         }
         ("okm", 2) => {
+            // the same bytes at every alignment 0..7 of an 8-byte aligned buffer: the result may depend on the VALUE only
             let b = parse_bytes(a[1])?;
-            match a[0] {
-                "fq" => { if b.len() != 64 { return None; } Fq::from_okm(GenericArray::from_slice(&b)).show() }
-                "fr" => { if b.len() != 48 { return None; } Fr::from_okm(GenericArray::from_slice(&b)).show() }
-                "fq2" => { if b.len() != 128 { return None; } Fq2::from_ro(GenericArray::from_slice(&b)).show() }
-                _ => return None,
+            let want = match a[0] { "fq" => 64, "fr" => 48, "fq2" => 128, _ => return None };
+            if b.len() != want { return None; }
+            let mut backing = vec![0u64; (want + 16) / 8 + 2];
+            let base = backing.as_mut_ptr() as *mut u8;
+            let buf: &mut [u8] = unsafe { std::slice::from_raw_parts_mut(base, backing.len() * 8) };
+            let mut outs = vec![];
+            for off in 0..8usize {
+                for x in buf.iter_mut() { *x = 0xa5; }
+                buf[off..off + want].copy_from_slice(&b);
+                let sl = &buf[off..off + want];
+                outs.push(match a[0] {
+                    "fq" => Fq::from_okm(GenericArray::from_slice(sl)).show(),
+                    "fr" => Fr::from_okm(GenericArray::from_slice(sl)).show(),
+                    _ => Fq2::from_ro(GenericArray::from_slice(sl)).show(),
+                });
             }
+            if outs.iter().all(|o| *o == outs[0]) { outs[0].clone() } else { format!("ALIGNMENT-DEPENDENT {}", outs.join(" | ")) }
         }
         ("h2cfix", 3) => {
             let bytes = parse_bytes(a[2])?;
